@@ -129,6 +129,26 @@ def run(ctx):
         if bad is not None:
             bad["pvalues"] = [str(x) for x in v]
             ctx.violation("oracle", bad, site="adjust_p")
+    # a buffer refilled in place with new p-values between two calls: second result as on a fresh array
+    for _ in range(ctx.n(40, 400)):
+        n_ = ctx.rng.randint(1, 8); m = ctx.rng.choice(METHODS)
+        v1 = np.array([ctx.rng.randint(1, 99) / 100 for _ in range(n_)]); v2 = np.array([ctx.rng.randint(1, 99) / 100 for _ in range(n_)])
+        buf = v1.copy(); ra = guarded(npc.adjust_p, buf, m); buf[...] = v2
+        rb = guarded(npc.adjust_p, buf, m); rf = guarded(npc.adjust_p, v2.copy(), m)
+        ctx.case(("refill", m, tuple(v1), tuple(v2)), True); ctx.count("buffer-refilled-in-place")
+        if rb[0] != "ok" or rf[0] != "ok" or not np.array_equal(np.array(rb[1]), np.array(rf[1])):
+            ctx.violation("oracle", {"method": m, "first": v1.tolist(), "second": v2.tolist(), "issue": "adjust_p on a buffer refilled in place differs from adjust_p on a fresh array with the same contents",
+                                     "refilled": str(rb[1:])[:120], "fresh": str(rf[1:])[:120]}, site="adjust_p")
+    # what one call handed back must not change when the function is called again (no shared result buffers)
+    for m in METHODS:
+        for n_ in (1, 3, 8):
+            a = guarded(npc.adjust_p, np.array([0.01 * (k + 1) for k in range(n_)]), m)
+            keep = None if a[0] != "ok" else np.array(a[1], dtype=float).copy()
+            b = guarded(npc.adjust_p, np.array([0.9 - 0.05 * k for k in range(n_)]), m)
+            ctx.case(("stable-result", m, n_), True); ctx.count("result-stability")
+            if a[0] != "ok" or b[0] != "ok" or not np.array_equal(np.array(a[1], dtype=float), keep):
+                ctx.violation("oracle", {"method": m, "n": n_, "issue": "the array returned by one call changed when adjust_p was called again (shared result buffer)",
+                                         "first_now": str(a[1:])[:200], "first_then": None if keep is None else keep.tolist()}, site="adjust_p")
     # unknown method names raise ValueError
     for name in ("nonsense", "holm", "", "Bonferroni", "bonferonni", "BH", "{method}", "{}", "holm-{bonferroni}", "{:>10}", "{0}", "%s", "%(name)s", "{",
                  "benjamini-hochberg ", " holm-bonferroni", "holm_bonferroni", "bonferroni\n", "\x00"):
